@@ -56,7 +56,7 @@ type c16Plan struct {
 
 const limit = 5 * time.Second
 
-func unhex(s string) []byte { b, _ := hex.DecodeString(s); return b }
+func unhex(s string) []byte { b, _ := hex.DecodeString(strings.TrimPrefix(s, "!")); return b }
 
 // receiverGoroutines counts live socket receiver goroutines of the library.
 func receiverGoroutines() int {
@@ -89,6 +89,9 @@ func framed(b []byte) bool {
 
 // decodable reports whether the library decodes the frame in-process.
 func decodable(h string) bool {
+	if strings.HasPrefix(h, "!") {
+		return false
+	}
 	var s knxnet.Service
 	_, err := knxnet.Unpack(unhex(h), &s)
 	return err == nil
@@ -99,6 +102,9 @@ func decodable(h string) bool {
 func decodeAll(frames []string) ([]knxnet.Service, *common.Fail) {
 	out := []knxnet.Service{}
 	for _, h := range frames {
+		if strings.HasPrefix(h, "!") {
+			continue // a raw datagram (empty, or shorter than a header) in a datagram plan: nothing to deliver, nothing to end
+		}
 		var s knxnet.Service
 		if _, err := knxnet.Unpack(unhex(h), &s); err != nil {
 			if framed(unhex(h)) {
@@ -1027,6 +1033,23 @@ func genPlanC16(rt *rapid.T) c16Plan {
 		if rapid.IntRange(0, 3).Draw(rt, "junk") == 0 {
 			p.Frames = withJunk(rt, p.Frames, 2000)
 		}
+		if rapid.IntRange(0, 3).Draw(rt, "large-frame") == 0 {
+			// a frame of an unassigned service with 4..64 kB: a stream has no datagram limit, only the 16-bit total length
+			total := rapid.SampledFrom([]int{4095, 4096, 4097, 5000, 8192, 8193, 16384, 32768, 65534, 65535}).Draw(rt, "large-total")
+			b := make([]byte, total)
+			for i := range b {
+				b[i] = byte(i*13 + total)
+			}
+			b[0], b[1], b[2], b[3], b[4], b[5] = 6, 0x10, 0x0f, 0x42, byte(total>>8), byte(total)
+			at := rapid.IntRange(0, len(p.Frames)).Draw(rt, "large-at")
+			p.Frames = append(p.Frames[:at], append([]string{hex.EncodeToString(b)}, p.Frames[at:]...)...)
+			p.PauseUs = 0
+			for i := range p.Cuts {
+				if p.Cuts[i] > 0 {
+					p.Cuts[i] *= 97
+				}
+			}
+		}
 		if rapid.IntRange(0, 9).Draw(rt, "slow-reader") == 0 {
 			p.ReaderPauseMs = rapid.SampledFrom([]int{5, 60, 250}).Draw(rt, "reader-pause")
 		}
@@ -1051,6 +1074,14 @@ func genPlanC16(rt *rapid.T) c16Plan {
 		}
 		if rapid.IntRange(0, 3).Draw(rt, "junk") == 0 {
 			p.Frames = withJunk(rt, p.Frames, 1024)
+		}
+		if rapid.IntRange(0, 2).Draw(rt, "runts") == 0 {
+			// datagrams that are no frame at all: empty, or shorter than a header (anybody in the group can send them)
+			for k := rapid.IntRange(1, 3).Draw(rt, "runt-n"); k > 0; k-- {
+				at := rapid.IntRange(0, len(p.Frames)-1).Draw(rt, "runt-at")
+				r := rapid.SampledFrom([]string{"!", "!", "!06", "!0610", "!06100420", "!0610042000"}).Draw(rt, "runt")
+				p.Frames = append(p.Frames[:at], append([]string{r}, p.Frames[at:]...)...)
+			}
 		}
 		if rapid.IntRange(0, 9).Draw(rt, "slow-reader") == 0 {
 			p.ReaderPauseMs = rapid.SampledFrom([]int{5, 60, 250}).Draw(rt, "reader-pause")
